@@ -308,6 +308,10 @@ def c18_jobs(tier):
     src = ['src/utf.c', 'src/a.c']
     jobs = grid_jobs('utf', 'harness/utf.cpp', src, tier, 16)
     jobs += grid_jobs('utf-asan', 'harness/utf.cpp', src, 'quick', 8, san='asan')
+    # the string-level users of the codec (a_utf_catc, a_utf_len in src/str.c, an anchored file): the content-rich string exploration of C06
+    jobs += [str_job('rich', 'str-utf-rich-n6-4letters', 6), str_job('rich', 'str-utf-rich-asan-n4', 4, san='asan')]
+    # plain char is unsigned on ARM / PowerPC / RISC-V ABIs: the same enumeration with -funsigned-char
+    jobs += grid_jobs('utf-uchar', 'harness/utf.cpp', src, 'quick', 8, defs=['-funsigned-char'])
     return jobs
 
 
@@ -380,6 +384,10 @@ def c12_jobs(tier):
         jobs += grid_jobs('pid-%s' % mode, 'harness/pid.cpp', src, tier, n if tier == 'quick' else 16, extra=['--mode', mode], build='pid', deadline=D)
     for mode in ('plain', 'neuro', 'fuzzy'):
         jobs += grid_jobs('pid-%s-asan' % mode, 'harness/pid.cpp', src, 'quick', 4, extra=['--mode', mode], build='pid-asan', san='asan', deadline=D)
+    # float reals: the same explorations (all quantities stay dyadic, so the plain controller is still exact); layout assumptions that only
+    # hold for sizeof(a_real) == 8 show here
+    for mode, n in (('plain', 2), ('neuro', 2), ('fuzzy', 8)):
+        jobs += grid_jobs('pid-%s-f32' % mode, 'harness/pid.cpp', src, 'quick', n, extra=['--mode', mode], build='pid-f32', defs=['-DA_SIZE_REAL=4'], deadline=D)
     jobs += cxx_jobs('pid', src)
     return jobs
 
@@ -390,7 +398,7 @@ CHECKS['C12'] = {
              'thorough: the full product kp,kd in {0,1/2,2} x ki in {0,1/2,1} x 4 integrator-limit pairs x 4 output-limit pairs = 432 sets) from EVERY reachable state EVERY step (mode in {run,pos,inc}) x (set-point, feedback) in {-2,0,1}^2 (thorough {-3,-1,0,2}^2) and zero is executed; '
              'all quantities are dyadic so the arithmetic is exact and the BFS reaches a FIXPOINT (histories of any length). Oracle after every step: output within limits, state finite, integrator never moves further beyond its clamp, inside the clamp it advances by exactly ki*err, beyond the clamp it holds unless the error points inward, '
              'positional and incremental outputs equal the difference equations exactly, zero restores the initial state. A shadow pair (positional + incremental controller fed the same inputs) must coincide for as long as no limit has been active. '
-             'Single-neuron controller: depth-bounded BFS (4 steps quick, 5 thorough) from 4 weight vectors incl. all-zero x 2 output gains; fuzzy controller: depth-bounded BFS (3 / 4 steps) over 5 rule bases (3x3 shoulder triangles with and without a kp table, 5x5 trapezoid shoulders, 3 wide triangles with 3 simultaneously active sets, the 7x7 base of test/pid_fuzzy.h) x ALL SEVEN operators x parameter sets, scratch buffer of exactly A_PID_FUZZY_BFUZZ(active) bytes between canaries: '
+             'Single-neuron controller: depth-bounded BFS (4 steps quick, 5 thorough) from 4 weight vectors incl. all-zero x 2 output gains; fuzzy controller: depth-bounded BFS (3 / 4 steps) over 6 rule bases (3x3 shoulder triangles with and without a kp table, an unsorted 3x3 table, 5x5 trapezoid shoulders, 3 wide triangles with 3 simultaneously active sets, the 7x7 base of test/pid_fuzzy.h) x ALL SEVEN operators x parameter sets, scratch buffer of exactly A_PID_FUZZY_BFUZZ(active) bytes between canaries: '
              'output within limits, every field and scheduled gain finite, gains within base + [min,max] of the consequents, step equations with the gains scheduled for that step. distinct_nontrivial = distinct reachable controller states.'),
     'assumptions': ['dyadic gains/limits/inputs: every floating-point operation of the plain controller is exact, so == comparisons are sound; the fuzzy step is compared within 16 ulp of the term magnitude because scheduled gains are weighted means',
                     'exactly on a clamp (sum == summax or sum == summin) either holding or integrating is accepted: code comment and header formula differ there', 'the neuron controller is checked for limits, finiteness, cache updates and zeroing, not against the header formula (the statement names the equations of the positional and incremental forms)',
@@ -416,7 +424,7 @@ CHECKS['C13'] = {
     'rule': ('bounded-exhaustive enumeration against an independent long-double reference of the documented shapes. Membership functions: all 13 kinds; EVERY parameter tuple a<=b<=c<=d from {-2,-1,-1/2,0,1,1.5,3} INCLUDING ties for tri/trap/lins/linz, non-zero widths for the smooth kinds (3 widths x 7 centres, bell exponents 1..3, slopes +-1,+-4), equal slopes and ordered centres for dsig; '
              'x = every break point, one ulp on either side, quarter points between break points, +-7.5, +-1e3. Per evaluation: value in [0,1] and not NaN, equal to the documented piecewise shape (4 ulp piecewise, 64 ulp transcendental; the reference is continuous, so the +-1 ulp points check continuity), exactly 1 on the core (incl. a peak that coincides with a foot), flank monotonicity between neighbouring lattice points, dispatcher == specific function (also for the terminator and out-of-range kinds), s+z == 1 and lins+linz == 1. '
              'Operators: all pairs from {0,1/16,...,1}^2 for the seven operators: range, commutativity, monotone in each argument, cap <= min, cup >= max, the compensatory operator between algebraic product and algebraic sum, boundary cases at 0 and 1, definition, not involutive, selector. '
-             'Gain scheduling: 7 rule bases (each of the kp, ki, kd tables absent in one of them) (incl. the degenerate shoulder triangles of test/pid_fuzzy.h, 3 simultaneously active sets, gaussian/bell sets) x 7 operators x a 41x41 (81x81 thorough) (e, ec) lattice spanning beyond the universe: corrections equal the weighted mean of the active consequents, lie between their min and max, stay finite when the total firing strength is zero, equal the base gains when no rule is active; scratch buffer of exactly A_PID_FUZZY_BFUZZ(active) bytes between canaries. Real types double, float and long double (-DA_SIZE_REAL=16: sizeof(a_real) != 2*sizeof(unsigned), which the buffer layout must not assume).'),
+             'Gain scheduling: 8 rule bases (each of the kp, ki, kd tables absent in one of them; one table not sorted by position, so that active sets are not neighbours in table order) (incl. the degenerate shoulder triangles of test/pid_fuzzy.h, 3 simultaneously active sets, gaussian/bell sets) x 7 operators x a 41x41 (81x81 thorough) (e, ec) lattice spanning beyond the universe: corrections equal the weighted mean of the active consequents, lie between their min and max, stay finite when the total firing strength is zero, equal the base gains when no rule is active; scratch buffer of exactly A_PID_FUZZY_BFUZZ(active) bytes between canaries. Real types double, float and long double (-DA_SIZE_REAL=16: sizeof(a_real) != 2*sizeof(unsigned), which the buffer layout must not assume).'),
     'assumptions': ['a set is active when its degree exceeds the real type epsilon (the controller\'s own threshold)', 'the compensatory operator a_fuzzy_equ is neither an intersection nor a union; it is bounded by the algebraic product and sum, not by min/max'],
     'design_ref': '§4.C13', 'technique': 'bounded-exhaustive enumeration of parameter tuples (ties included) x abscissa lattices, operator pair grids and (e, ec) lattices against an independent reference',
     'level_text': 'Every branch constant of the 13 membership functions becomes lattice points at, just below and just above it, for every ordered parameter tuple including all ties; the operators are decided on a 17x17 grid; the scheduled gains are compared with an independent mean-of-centres reference on a dense (e, ec) lattice for every operator and six rule bases.',
